@@ -63,7 +63,9 @@ def main():
         if own_first and own_first[0][1] not in (0, 1):
             short = "MISSED (check did not finish: rc=%d)" % own_first[0][1]
         cb = {
-            "procedure": "tools/seed_eval.sh (fresh scratch worktree: demo unpatched, git apply, demo patched, 42 stable tests with the patch; then patch applied to /repo, checks at quick tier, undone)",
+            "procedure": ("tools/seed_eval.sh (fresh scratch worktree: demo unpatched, git apply, demo patched, 42 stable tests with the patch; then patch applied to /repo, checks at quick tier, undone)"
+                          if not os.environ.get("SEED_SCRATCH") else
+                          "SEED_SCRATCH=1 tools/seed_eval.sh (fresh scratch worktree of /repo HEAD: demo unpatched, git apply, demo patched, 42 stable tests with the patch; checks at quick tier run against a second scratch worktree of HEAD with the patch applied (FORMAK_REPO), because /repo was being read by the final thorough run)"),
             "tree": d["tree"],
             "demo_exit_unpatched": d["du"],
             "demo_exit_patched": d["dp"],
